@@ -546,6 +546,35 @@ func (c *simCluster) metaScan(r *hrpc.Scan) *pb.ScanResponse {
 	resp := &pb.ScanResponse{MoreResults: &no, MoreResultsInRegion: &no}
 	skey := r.StartRow()
 	table := r.StopRow()
+	if !r.Reversed() {
+		// the lookup of all regions of a table (CacheRegions): a forward scan of [table, table ".")
+		if len(skey) == 0 || !bytes.Equal(table, append(append([]byte{}, skey...), '.')) {
+			return resp
+		}
+		tbl := skey
+		var rs []*simRegion
+		for _, x := range c.regions {
+			if bytes.Equal(x.fq(), tbl) {
+				rs = append(rs, x)
+			}
+		}
+		sort.Slice(rs, func(i, j int) bool { return region.Compare(rs[i].name, rs[j].name) < 0 })
+		for _, x := range rs {
+			ns := x.ns
+			if len(ns) == 0 {
+				ns = []byte("default")
+			}
+			ri := &pb.RegionInfo{RegionId: &x.id, TableName: &pb.TableName{Namespace: ns, Qualifier: x.table},
+				StartKey: x.start, EndKey: x.stop}
+			b, _ := proto.Marshal(ri)
+			ts := uint64(1)
+			resp.Results = append(resp.Results, &pb.Result{Cell: []*pb.Cell{
+				{Row: x.name, Family: []byte("info"), Qualifier: []byte("regioninfo"), Value: append([]byte("PBUF"), b...), Timestamp: &ts, CellType: pb.CellType_PUT.Enum()},
+				{Row: x.name, Family: []byte("info"), Qualifier: []byte("server"), Value: []byte(x.addr), Timestamp: &ts, CellType: pb.CellType_PUT.Enum()},
+			}})
+		}
+		return resp
+	}
 	pick := func(skipHidden bool) *simRegion {
 		var best *simRegion
 		for _, x := range c.regions {
